@@ -114,6 +114,10 @@ def events_for(form, full=True):
         if kind == "sco":
             evs.append({"op": "sco-contrib", "prop": "name"})
             evs.append({"op": "sco-contrib-none", "prop": "name"})
+            # contributing properties the original does NOT carry: setting one changes what the identifier is derived from just the same
+            evs.append({"op": "sco-contrib", "prop": "hashes"})
+            evs.append({"op": "sco-contrib", "prop": "parent_directory_ref"})
+            evs.append({"op": "sco-contrib", "prop": "extensions"})
     else:
         evs.append({"op": "revoke", "clock": "0"})
     return evs
@@ -162,7 +166,8 @@ def changes_for(ev, form, cur_view, depth):
     if op == "req-none":
         return {"relationship_type" if d["type"] == "relationship" else "name": None}
     if op == "sco-contrib":
-        return {"name": "other.txt"}
+        return {"name": {"name": "other.txt"}, "hashes": {"hashes": {"MD5": "d41d8cd98f00b204e9800998ecf8427e"}}, "parent_directory_ref": {"parent_directory_ref": "directory--" + U + "9"},
+                "extensions": {"extensions": {"ntfs-ext": {"sid": "s"}}}}[ev["prop"]]
     if op == "sco-contrib-none":
         return {"name": None}
     return {}
